@@ -462,3 +462,30 @@ Proof.
   - vm_compute. reflexivity.
 Qed.
 Print Assumptions c07_maxvar_head_count_refuted.
+
+(* ---- the reader option convertHeuristic on texts without a heuristic predicate (coq/C07/Run.v = the decoder of the correspondence run) ----
+   Without a conversion option the decoder is V.C07.Model.run_case; with convertHeuristic (option value 4) and a text without `_heuristic(`
+   it answers what the model answers for the same case WITHOUT the option: "convertHeuristic is invisible when no name is a heuristic
+   predicate" - every symbol line is delivered, also one whose name / whose (atom, name) pair occurred before. The real reader is held
+   to this by the differential run (harness/h_c07.cpp applies the same textual test). *)
+Require V.C07.Run V.C07.ProofsRun.
+Theorem c07_run_without_conversion : forall n ob len r, (ob / 2) mod 4 = 0 ->
+  V.C07.Run.run_case (n :: ob :: len :: r) = V.C07.Model.run_case (n :: ob :: len :: r).
+Proof. exact V.C07.ProofsRun.run_plain. Qed.
+Print Assumptions c07_run_without_conversion.
+
+Theorem c07_heuristic_option_invisible : forall n ob len r,
+  (ob / 2) mod 2 = 0 -> (ob / 4) mod 2 = 1 -> V.C07.Run.has_sub V.C07.Run.heu_pred (firstn (Z.to_nat len) r) = false ->
+  V.C07.Run.run_case (n :: ob :: len :: r) = V.C07.Model.run_case (n :: (ob - 4) :: len :: r).
+Proof. exact V.C07.ProofsRun.run_heu_ignored. Qed.
+Print Assumptions c07_heuristic_option_invisible.
+
+(* non-vacuity: `0 / 2 a / 3 a / 2 a / 0 / B+ 0 B- 0 1` (one name for two atoms, one line twice) with the option: all three symbols delivered;
+   a text with a heuristic predicate stays outside the domain of C07 (C08) *)
+Definition ex_dup_table : list Z := [48; 10; 50; 32; 97; 10; 51; 32; 97; 10; 50; 32; 97; 10; 48; 10; 66; 43; 10; 48; 10; 66; 45; 10; 48; 10; 49; 10].
+Example c07_heuristic_option_example :
+  V.C07.Run.has_sub V.C07.Run.heu_pred ex_dup_table = false /\
+  read_smodels (mkopts false false) ex_dup_table = ([CInit false; CBegin; COutput [97] [2]; COutput [97] [3]; COutput [97] [2]; CEnd], Ok tt) /\
+  V.C07.Run.run_case ([4096; 4; 28] ++ ex_dup_table) = V.C07.Model.encode_result (read_smodels (mkopts false false) ex_dup_table) /\
+  V.C07.Run.run_case ([4096; 4; 41] ++ [48; 10; 50; 32; 95; 104; 101; 117; 114; 105; 115; 116; 105; 99; 40; 97; 44; 115; 105; 103; 110; 44; 49; 44; 48; 41; 10; 48; 10; 66; 43; 10; 48; 10; 66; 45; 10; 48; 10; 49; 10]) = [-3].
+Proof. repeat split; vm_compute; reflexivity. Qed.
